@@ -110,7 +110,12 @@ def run(ctx: Ctx):
         "cse_contract premise as in C01; lambdify; float rounding at relative 1e-9",
     ]
     jobs = []
+    fixed = M.function_coverage_definitions()
     for k in range(n_defs):
+        if k < len(fixed):
+            d = fixed[k]
+            jobs.append({"defn": d, "cse": bool(k % 2), "decl": {"container": "list", "perm_seed": k}, "points": M.function_coverage_points(d), "want": ["sensors", "jacobians"]})
+            continue
         d = M.gen_definition(ctx.rng, rational=(k % 2 == 0), min_sensors=1, max_sensors=2, max_states=4,
                              force_cal=(True if k % 3 else None), force_control=(True if k % 4 == 1 else None), force_bilinear=(k % 8 == 2))
         pts = [M.rnd_inputs(ctx.rng, d) for _ in range(n_points)]
